@@ -110,7 +110,7 @@ def call(stream, what, case, f):
     except ImplTimeout:
         stream.violate('%s did not return within %d s' % (what, CALL_TIMEOUT_S), case, {})
         return False, None
-    except ERRS as e:
+    except Exception as e:   # any exception of the implementation on an admissible input is a violation
         stream.violate('%s raised %s: %s' % (what, type(e).__name__, str(e)[:200]), case, {})
         return False, None
     finally:
@@ -228,7 +228,7 @@ def stream_fermion(ctx):
     b.flush()
 
     rng = rng_for(ctx.seed, 'c04-fermion')
-    n_ops = budget(ctx.tier, 250, 4000)
+    n_ops = budget(ctx.tier, 400, 4000)
     if ctx.drift:
         n_ops = max(n_ops, 500)
     prev = None
@@ -345,7 +345,7 @@ def stream_helpers(ctx):
     for (p, q, r, s) in tuples:
         kinds = coeff_kinds(rng)
         if ctx.tier == 'quick' and not ctx.drift:
-            kinds = [kinds[1], rng.choice([kinds[0], kinds[2], kinds[3], kinds[4]])]
+            kinds = [kinds[1], kinds[2], rng.choice([kinds[0], kinds[3], kinds[4]])]
         for c in kinds:
             case = {'fn': 'jordan_wigner_two_body', 'pqrs': [p, q, r, s], 'c': to_gq(c)}
             st.case(case)
@@ -413,7 +413,7 @@ def stream_tensors(ctx):
                 'exactly with jordan_wigner(get_fermion_operator(.)); distinct = distinct tensors')
     b = Batch(ctx, st)
     rng = rng_for(ctx.seed, 'c04-iop')
-    n_iop = budget(ctx.tier, 70, 900)
+    n_iop = budget(ctx.tier, 120, 900)
     if ctx.drift:
         n_iop = max(n_iop, 120)
     for k in range(n_iop):
@@ -442,7 +442,7 @@ def stream_tensors(ctx):
     b.flush()
 
     rng = rng_for(ctx.seed, 'c04-dch')
-    for k in range(budget(ctx.tier, 40, 900)):
+    for k in range(budget(ctx.tier, 80, 900)):
         n = rng.randint(1, 5)
         cplx = rng.random() < 0.6
         one = numpy.zeros((n, n), dtype=complex if cplx else float)
@@ -515,7 +515,7 @@ def stream_reverse(ctx):
                 ops.append(of.QubitOperator(((i, P), (j, R)), 1.0))
     ops.append(of.QubitOperator((), 2.0))
     ops.append(of.QubitOperator())
-    for _ in range(budget(ctx.tier, 50, 500)):
+    for _ in range(budget(ctx.tier, 120, 800)):
         ops.append(rand_qubit_op(rng, of, rng.randint(1, 6), 4))
     for Q in ops:
         jQ = enc_op('qubit', Q.terms)
@@ -548,11 +548,15 @@ def stream_reverse(ctx):
 # ---------------------------------------------------------------- dual-basis jellium (float)
 
 def close_ops(a, b, tol=1e-9):
+    """absolute tolerance 1e-9, scaled down with the largest coefficient when that is below 1 (large grid scales)"""
     keys = set(a.terms) | set(b.terms)
     worst = 0.0
+    big = 0.0
     for k in keys:
-        worst = max(worst, abs(complex(a.terms.get(k, 0.0)) - complex(b.terms.get(k, 0.0))))
-    return worst <= tol, worst
+        x, y = complex(a.terms.get(k, 0.0)), complex(b.terms.get(k, 0.0))
+        worst = max(worst, abs(x - y))
+        big = max(big, abs(x), abs(y))
+    return worst <= tol * min(1.0, big if big > 0 else 1.0), worst
 
 
 def stream_jellium(ctx):
@@ -564,14 +568,14 @@ def stream_jellium(ctx):
     st = Stream('dual-basis-jellium', 'jordan_wigner_dual_basis_jellium / jordan_wigner_dual_basis_hamiltonian against '
                 'jordan_wigner of the FermionOperator Hamiltonian on grids 1-D (length 2..4), 2-D 2x2 (3x3 thorough), 2-D with '
                 'unequal lengths (2,3),(3,2) and anisotropic / sheared cells (axis reversal is not a symmetry there), '
-                'spinless and spinful, with and without constant / nuclei; float comparison, absolute tolerance 1e-9 '
+                'grid scales 1e3 and 2e3 (larger scales push kinetic coefficients below the pruning threshold 1e-8 of the library), spinless and spinful, with and without constant / nuclei; float comparison, absolute tolerance 1e-9 '
                 'on every coefficient of the union of keys')
     jw = of.transforms.jordan_wigner
     import numpy as np
     # scalar cubic grids, grids with unequal lengths per axis, and anisotropic / sheared cells (on the latter
     # two reversing the axes is not a symmetry, so any mix-up of the orbital numbering convention shows)
     grids = [(1, 2, 1.0), (1, 3, 2.0), (1, 4, 1.5), (2, 2, 1.0),
-             (2, (2, 3), 1.0), (2, (3, 2), 1.5), (2, 2, np.diag([1.0, 1.7])),
+             (2, (2, 3), 1.0), (2, (3, 2), 1.5), (2, 2, np.diag([1.0, 1.7])), (1, 3, 1.0e3), (2, 2, 2.0e3),
              (2, (2, 3), np.array([[1.0, 0.3], [0.0, 1.2]]))]
     if ctx.tier == 'thorough':
         grids += [(2, 3, 2.0), (1, 5, 0.75), (3, 2, 1.0), (3, (2, 1, 3), 1.0), (2, (3, 2), np.diag([0.8, 1.3])),
@@ -619,9 +623,6 @@ def stream_jellium(ctx):
     return st
 
 
-def run(ctx):
-    return [stream_fermion(ctx), stream_helpers(ctx), stream_tensors(ctx), stream_reverse(ctx),
-            stream_jellium(ctx)]
 
 
 # ---------------------------------------------------------------- replay of a recorded failing input
@@ -688,7 +689,7 @@ def replay(ctx, payload):
     req = detail.get('request')
     try:
         out = impl_output(ctx, case)
-    except ERRS:
+    except Exception:
         return False
     if out is None or not req:
         return None
@@ -698,3 +699,476 @@ def replay(ctx, payload):
     else:
         req['Q'] = out
     return bool(ctx.driver.one(req)['eq'])
+
+
+# ---------------------------------------------------------------- hardening: State, Types, Bands, Asymmetry
+
+BAND = [2.0 ** -15, 2.0 ** -16, 2.0 ** -17, 2.0 ** -18, 2.0 ** -19]     # 3.1e-5 .. 1.9e-6, exact in binary
+
+
+def band_val(rng, cplx):
+    """a dyadic value of magnitude 1.9e-6 .. 8.7e-5 < 1e-4 (real, purely imaginary or complex)"""
+    re = rng.choice([1, -1, 2, -2]) * rng.choice(BAND)
+    if not cplx:
+        return re
+    kind = rng.random()
+    if kind < 0.4:
+        return complex(0.0, re)
+    return complex(re, rng.choice([1, -1, 2]) * rng.choice(BAND))
+
+
+def soft(st, tag, f):
+    """a call with an argument type the tree under test may legitimately reject: an exception only excludes the type"""
+    import signal
+    old = signal.signal(signal.SIGALRM, _alarm)
+    signal.setitimer(signal.ITIMER_REAL, CALL_TIMEOUT_S)
+    try:
+        return True, f()
+    except ImplTimeout:
+        st.count('type-probe-timeout:' + tag)
+        return False, None
+    except Exception:
+        st.count('type-rejected-by-this-tree:' + tag)
+        return False, None
+    finally:
+        signal.setitimer(signal.ITIMER_REAL, 0)
+        signal.signal(signal.SIGALRM, old)
+
+
+def herm_tensors(rng, n, cplx, density, integer=False):
+    """Hermitian one-/two-body arrays (complex128): two[p,q,r,s] = conj(two[s,r,q,p]); purely imaginary
+    off-diagonal entries are frequent (zero real part)"""
+    def val(c):
+        if integer:
+            return float(rng.randint(-4, 4))
+        re = rng.randint(-6, 6) / 2 ** rng.randint(0, 2)
+        if not c:
+            return re
+        im = rng.randint(-6, 6) / 2 ** rng.randint(0, 2)
+        return complex(0.0, im or 0.5) if rng.random() < 0.35 else complex(re, im)
+    one = numpy.zeros((n, n), dtype=complex)
+    two = numpy.zeros((n, n, n, n), dtype=complex)
+    for p in range(n):
+        for q in range(p, n):
+            if rng.random() < density:
+                v = val(cplx and p != q)
+                one[p, q] = v
+                one[q, p] = numpy.conj(v)
+    for idx in itertools.product(range(n), repeat=4):
+        partner = idx[::-1]
+        if idx > partner:
+            continue
+        if rng.random() < density:
+            v = val(cplx and idx != partner)
+            two[idx] = v
+            two[partner] = numpy.conj(v)
+    return one, two
+
+
+ARRAY_KINDS = ['float64', 'complex128', 'complex64', 'float32', 'int64', 'int32', 'fortran-complex128',
+               'fortran-float64']
+
+
+def cast(arr, kind):
+    a = numpy.asarray(arr)
+    if kind.startswith('fortran-'):
+        dt = kind.split('-')[1]
+        a = a.real if not dt.startswith('complex') else a
+        return numpy.asfortranarray(a.astype(dt))
+    if not kind.startswith('complex'):
+        a = a.real
+    return numpy.ascontiguousarray(a.astype(kind))
+
+
+def sparse_spec_op(const, one, two):
+    """the tensor formula written out from the non-zero entries (independent of the library)"""
+    A = [[[], to_gq(const)]]
+    for (a, c), v in numpy.ndenumerate(numpy.asarray(one)):
+        if v != 0:
+            A.append([[[a, 1], [c, 0]], to_gq(v)])
+    for (a, c, d, e), v in numpy.ndenumerate(numpy.asarray(two)):
+        if v != 0:
+            A.append([[[a, 1], [c, 1], [d, 0], [e, 0]], to_gq(v)])
+    return A
+
+
+FORCED_BAND = ['diag', 'offdiag', 'coulomb', 'numexc', 'quartic-ijkl', 'quartic-ikjl', 'quartic-iljk']
+
+
+def band_tensors(rng, n, cplx, forced, st):
+    """Hermitian tensors with an O(1) background and small (4e-6 .. 6e-5) entries; `forced` names the entry class
+    that is guaranteed to be present and alone in its (anti)symmetrised combination"""
+    one, two = herm_tensors(rng, n, cplx, 0.12 if n <= 6 else 0.0)
+
+    def put2(idx, v):
+        a, b, c, d = idx
+        for z in ((a, b, c, d), (a, b, d, c), (b, a, d, c), (b, a, c, d)):
+            two[z] = 0
+            two[z[::-1]] = 0
+        two[idx] = v
+        two[idx[::-1]] = numpy.conj(v)
+
+    def put(kind):
+        if kind == 'diag':
+            one[rng.randrange(n), rng.randrange(n)] = 0
+            p = rng.randrange(n)
+            one[p, p] = band_val(rng, False)
+        elif kind == 'offdiag' or n < 3:
+            p, q = rng.sample(range(n), 2)
+            v = band_val(rng, cplx)
+            one[p, q] = v
+            one[q, p] = numpy.conj(v)
+            kind = 'offdiag'
+        elif kind == 'coulomb':
+            i3, j3 = rng.sample(range(n), 2)
+            put2(rng.choice([(i3, j3, j3, i3), (i3, j3, i3, j3)]), band_val(rng, False))
+        elif kind == 'numexc' or n < 4:
+            i3, j3, k3 = rng.sample(range(n), 3)
+            put2(rng.choice([(i3, j3, k3, i3), (j3, i3, i3, k3), (i3, j3, i3, k3)]), band_val(rng, cplx))
+            kind = 'numexc'
+        else:
+            i, j, k, l = sorted(rng.sample(range(n), 4), reverse=True)
+            idx = {'quartic-ijkl': (i, j, k, l), 'quartic-ikjl': (i, k, j, l), 'quartic-iljk': (i, l, j, k)}[kind]
+            put2(idx, band_val(rng, cplx))
+        st.count('band-entry:' + kind)
+    put(forced)
+    for _ in range(rng.randint(0, 2)):
+        put(rng.choice(FORCED_BAND))
+    # keep the diagonal one-body entries Hermitian (real) after the random zeroing above
+    for p in range(n):
+        one[p, p] = one[p, p].real
+    for p in range(n):
+        for q in range(p + 1, n):
+            one[q, p] = numpy.conj(one[p, q])
+    return one, two
+
+
+SCALARS = [('int', 2), ('int', -3), ('float', 1.5), ('complex', 0.5 - 2j), ('complex-imag', 0.75j), ('bool', True),
+           ('numpy.float64', numpy.float64(-0.75)), ('numpy.complex128', numpy.complex128(1 + 0.5j)),
+           ('numpy.float32', numpy.float32(1.5)), ('numpy.complex64', numpy.complex64(0.5 - 2j)),
+           ('numpy.int64', numpy.int64(-3)), ('numpy.int32', numpy.int32(2))]
+
+
+def arrays_equal(a, b):
+    a, b = numpy.asarray(a), numpy.asarray(b)
+    return a.shape == b.shape and a.dtype == b.dtype and bool(numpy.array_equal(a, b))
+
+
+def twice(st, what, case, compute, jenc, mutate):
+    """(S) call, mutate the returned value in place, call again: the second result must equal the first
+    (as computed before the mutation) and must be a different object"""
+    ok, r1 = call(st, what, case, compute)
+    if not ok:
+        return None
+    first = jenc(r1)
+    try:
+        mutate(r1)
+    except Exception:
+        pass
+    ok, r2 = call(st, what + ' (second call)', case, compute)
+    if not ok:
+        return None
+    st.count('state:called-twice-around-mutation')
+    if r2 is r1:
+        st.violate(what + ': the second call returned the same object as the first', case, {})
+    elif canon_op_json(jenc(r2)) != canon_op_json(first):
+        st.violate(what + ': the second call differs after the first result was modified in place', case,
+                   {'first': first, 'second': jenc(r2)})
+    return r2
+
+
+def mutate_operator(op):
+    op *= 3
+    op.terms[()] = 99.0
+    for k in list(op.terms)[:1]:
+        if k != ():
+            del op.terms[k]
+
+
+def stream_hardening(ctx):
+    import importlib
+    import copy
+    of = ctx.of
+    jw = of.transforms.jordan_wigner
+    rjw = of.transforms.reverse_jordan_wigner
+    jwmod = importlib.import_module('openfermion.transforms.opconversions.jordan_wigner')
+    st = Stream('hardening', '(S) every path is called twice around an in-place modification of its first result, '
+                'arguments are snapshotted before / after (including the arrays inside tensor objects), objects edited in '
+                'place (+=, *=, array assignment) are re-transformed and compared with a freshly built equal object; '
+                '(T) tensors as float64 / complex128 / complex64 / float32 / int64 / int32 / Fortran-ordered arrays, '
+                'helper coefficients as Python int / float / complex / bool and numpy scalar types, numpy scalars placed '
+                'into .terms (a type this tree rejects is excluded and counted, never an alarm); (B) dyadic entries of '
+                'magnitude 2e-6 .. 9e-5 next to O(1) ones in FermionOperators, InteractionOperators and '
+                'DiagonalCoulombHamiltonians, sizes 9 .. 20, indices >= 257; (A) complex constants, purely imaginary '
+                'entries, non-Hermitian tensors (Model comparison only), both operand orders.  Everything is compared '
+                'exactly with the Model and, where the input is admissible, with the Spec oracle; '
+                'distinct = distinct (check, input)')
+    b = Batch(ctx, st)
+    rng = rng_for(ctx.seed, 'c04-hardening')
+    reps = budget(ctx.tier, 1, 4) * (2 if ctx.drift else 1)
+
+    # ---- (T) helper coefficients of every scalar type, (S) on the helpers
+    for rep in range(reps):
+        for tag, c in SCALARS:
+            p, q, r, s = rng.choice([(3, 1, 0, 2), (0, 2, 0, 1), (2, 0, 2, 0), (1, 4, 2, 1), (5, 3, 3, 0),
+                                     (0, 1, 2, 3), (2, 1, 1, 2)])
+            case = {'fn': 'jordan_wigner_two_body', 'pqrs': [p, q, r, s], 'c': to_gq(c), 'coefficient_type': tag}
+            st.case(case)
+            ok, Q = soft(st, 'two_body:' + tag, lambda: jwmod.jordan_wigner_two_body(p, q, r, s, c))
+            if ok:
+                st.count('type-accepted:two_body:' + tag)
+                jQ = enc_op('qubit', Q.terms)
+                b.add('jordan_wigner_two_body[%s]' % tag, case, jQ,
+                      {'op': 'c04.two_body', 'p': p, 'q': q, 'r': r, 's': s, 'c': to_gq(c)},
+                      oracle('fermion', max(p, q, r, s) + 1, ['two_body', p, q, r, s, to_gq(c)], jQ))
+            case = {'fn': 'jordan_wigner_one_body', 'p': p, 'q': r, 'c': to_gq(c), 'coefficient_type': tag}
+            st.case(case)
+            ok, Q = soft(st, 'one_body:' + tag, lambda: jwmod.jordan_wigner_one_body(p, r, c))
+            if ok:
+                st.count('type-accepted:one_body:' + tag)
+                jQ = enc_op('qubit', Q.terms)
+                b.add('jordan_wigner_one_body[%s]' % tag, case, jQ, {'op': 'c04.one_body', 'p': p, 'q': r, 'c': to_gq(c)},
+                      oracle('fermion', max(p, r) + 1, ['one_body', p, r, to_gq(c)], jQ))
+            # numpy scalar placed directly into .terms
+            A = of.FermionOperator()
+            A.terms[((2, 1), (0, 0))] = c
+            A.terms[((1, 1),)] = 0.5
+            case = {'fn': 'jordan_wigner', 'fermion': enc_op('fermion', A.terms), 'coefficient_type': tag}
+            st.case(case)
+            ok, Q = soft(st, 'terms:' + tag, lambda: jw(A))
+            if ok:
+                st.count('type-accepted:terms:' + tag)
+                jA, jQ = enc_op('fermion', A.terms), enc_op('qubit', Q.terms)
+                b.add('jordan_wigner(.terms holds %s)' % tag, case, jQ, {'op': 'c04.fermion', 'A': jA},
+                      oracle('fermion', 3, ['op', jA], jQ))
+        case = {'fn': 'jordan_wigner_two_body', 'pqrs': [3, 0, 1, 3], 'c': to_gq(0.5 - 1.5j), 'check': 'state'}
+        st.case(case)
+        twice(st, 'jordan_wigner_two_body', case, lambda: jwmod.jordan_wigner_two_body(3, 0, 1, 3, 0.5 - 1.5j),
+              lambda Q: enc_op('qubit', Q.terms), mutate_operator)
+        twice(st, 'jordan_wigner_one_body', case, lambda: jwmod.jordan_wigner_one_body(4, 1, 0.5 - 1.5j),
+              lambda Q: enc_op('qubit', Q.terms), mutate_operator)
+    b.flush()
+
+    # ---- (S) FermionOperator / MajoranaOperator / QubitOperator paths
+    for rep in range(3 * reps):
+        A = rand_fermion_op(rng, of, rng.randint(2, 5), 3, 4)
+        B = rand_fermion_op(rng, of, rng.randint(2, 5), 2, 3)
+        snap = copy.deepcopy(A.terms)
+        jA = enc_op('fermion', A.terms)
+        case = {'fn': 'jordan_wigner', 'fermion': jA, 'check': 'state'}
+        st.case(case)
+        Q = twice(st, 'jordan_wigner(FermionOperator)', case, lambda: jw(A), lambda Q: enc_op('qubit', Q.terms),
+                  mutate_operator)
+        if A.terms != snap or enc_op('fermion', A.terms) != jA:
+            st.violate('jordan_wigner modified its FermionOperator argument', case, {'after': enc_op('fermion', A.terms)})
+        # edited in place, then transformed again: must agree with a freshly built equal operator
+        A += B
+        A *= 2
+        fresh = of.FermionOperator()
+        for t, c in A.terms.items():
+            fresh += of.FermionOperator(t, c)
+        ok1, Qa = call(st, 'jordan_wigner(edited operator)', case, lambda: jw(A))
+        ok2, Qf = call(st, 'jordan_wigner(fresh operator)', case, lambda: jw(fresh))
+        st.count('state:edited-in-place-then-requeried')
+        if ok1 and ok2 and canon_nz(enc_op('qubit', Qa.terms)) != canon_nz(enc_op('qubit', Qf.terms)):
+            st.violate('jordan_wigner of an operator edited in place differs from a freshly built equal operator',
+                       {'fermion': enc_op('fermion', A.terms)}, {})
+        # both operand orders
+        for X, Y in ((A, B), (B, A)):
+            if len(X.terms) * len(Y.terms) <= 12:
+                ok1, l = call(st, 'jw(X*Y)', case, lambda: jw(X * Y))
+                ok2, r = call(st, 'jw(X)*jw(Y)', case, lambda: jw(X) * jw(Y))
+                st.count('asymmetry:both-operand-orders')
+                if ok1 and ok2 and canon_nz(enc_op('qubit', l.terms)) != canon_nz(enc_op('qubit', r.terms)):
+                    st.violate('jw(X*Y) != jw(X)*jw(Y)', {'X': enc_op('fermion', X.terms), 'Y': enc_op('fermion', Y.terms)}, {})
+        Qb = rand_qubit_op(rng, of, rng.randint(1, 5), 3)
+        jQb = enc_op('qubit', Qb.terms)
+        case = {'fn': 'reverse_jordan_wigner', 'qubit': jQb, 'check': 'state'}
+        st.case(case)
+        twice(st, 'reverse_jordan_wigner', case, lambda: rjw(Qb), lambda F: enc_op('fermion', F.terms), mutate_operator)
+        if enc_op('qubit', Qb.terms) != jQb:
+            st.violate('reverse_jordan_wigner modified its argument', case, {})
+        M = rand_majorana_op(rng, of, rng.randint(2, 8), 3, 4)
+        jM = enc_op('majorana', M.terms)
+        case = {'fn': 'jordan_wigner', 'majorana': jM, 'check': 'state'}
+        st.case(case)
+        twice(st, 'jordan_wigner(MajoranaOperator)', case, lambda: jw(M), lambda Q: enc_op('qubit', Q.terms),
+              mutate_operator)
+        if enc_op('majorana', M.terms) != jM:
+            st.violate('jordan_wigner modified its MajoranaOperator argument', case, {})
+
+    # ---- (T)(A)(S) InteractionOperator: array types, complex constant, non-Hermitian (Model only), in-place edits
+    for rep in range(reps):
+        for kind in ARRAY_KINDS:
+            n = rng.choice([2, 3, 3, 4])
+            real = not kind.endswith('complex128') and not kind.endswith('complex64')
+            integer = kind.startswith('int')
+            one, two = herm_tensors(rng, n, not real, rng.choice([0.3, 1.0]), integer)
+            const = rng.choice([0.0, 1.5, 0.5 - 0.25j, 2j])
+            c1, c2 = cast(one, kind), cast(two, kind)
+            s1, s2 = c1.copy(), c2.copy()
+            ok, iop = soft(st, 'InteractionOperator:' + kind, lambda: of.InteractionOperator(const, c1, c2))
+            if not ok:
+                continue
+            j1, j2, jc = flat(iop.one_body_tensor), flat(iop.two_body_tensor), to_gq(const)
+            case = {'fn': 'jordan_wigner', 'interaction_operator': {'n': n, 'constant': jc, 'one': j1, 'two': j2},
+                    'array_type': kind}
+            st.case(case)
+            ok, Q = soft(st, 'jw(InteractionOperator):' + kind, lambda: jw(iop))
+            if not ok:
+                continue
+            st.count('type-accepted:InteractionOperator:' + kind)
+            jQ = enc_op('qubit', Q.terms)
+            b.add('jordan_wigner(InteractionOperator[%s])' % kind, case, jQ,
+                  {'op': 'c04.iop', 'n': n, 'constant': jc, 'one': j1, 'two': j2},
+                  oracle('fermion', n, ['op', sparse_spec_op(const, s1, s2)], jQ))
+            if not (arrays_equal(iop.one_body_tensor, s1) and arrays_equal(iop.two_body_tensor, s2)
+                    and arrays_equal(c1, s1) and arrays_equal(c2, s2)):
+                st.violate('jordan_wigner modified the tensors of its InteractionOperator argument', case, {})
+            twice(st, 'jordan_wigner(InteractionOperator)', case, lambda: jw(iop), lambda Q: enc_op('qubit', Q.terms),
+                  mutate_operator)
+            # edit in place (keeping it Hermitian), re-transform, compare with a freshly built operator
+            if n >= 2 and not integer:
+                v = 0.75 if real else (0.75 - 0.5j)
+                iop.one_body_tensor[0, 1] = v
+                iop.one_body_tensor[1, 0] = numpy.conj(v)
+                iop.two_body_tensor[0, 1, 1, 0] = 1.25
+                fresh_iop = of.InteractionOperator(const, iop.one_body_tensor.copy(), iop.two_body_tensor.copy())
+                ok1, Qa = call(st, 'jw(edited InteractionOperator)', case, lambda: jw(iop))
+                ok2, Qf = call(st, 'jw(fresh InteractionOperator)', case, lambda: jw(fresh_iop))
+                st.count('state:edited-in-place-then-requeried')
+                if ok1 and ok2 and canon_op_json(enc_op('qubit', Qa.terms)) != canon_op_json(enc_op('qubit', Qf.terms)):
+                    st.violate('jordan_wigner of an InteractionOperator edited in place differs from a fresh one', case, {})
+        # non-Hermitian tensors: the code symmetrises; only the Model (which mirrors it) is compared
+        n = rng.choice([2, 3])
+        one = numpy.array([[complex(rng.randint(-4, 4) / 2, rng.randint(-4, 4) / 4) for _ in range(n)] for _ in range(n)])
+        two = numpy.zeros((n,) * 4, dtype=complex)
+        for idx in itertools.product(range(n), repeat=4):
+            if rng.random() < 0.4:
+                two[idx] = complex(rng.randint(-4, 4) / 2, rng.randint(-4, 4) / 4)
+        iop = of.InteractionOperator(0.5j, one, two)
+        case = {'fn': 'jordan_wigner', 'interaction_operator': {'n': n, 'constant': to_gq(0.5j), 'one': flat(one),
+                                                               'two': flat(two)}, 'check': 'non-Hermitian, Model only'}
+        st.case(case)
+        st.count('asymmetry:non-hermitian-tensor')
+        ok, Q = call(st, 'jordan_wigner(non-Hermitian InteractionOperator)', case, lambda: jw(iop))
+        if ok:
+            b.add('jordan_wigner(non-Hermitian InteractionOperator)', case, enc_op('qubit', Q.terms),
+                  {'op': 'c04.iop', 'n': n, 'constant': to_gq(0.5j), 'one': flat(one), 'two': flat(two)})
+    b.flush()
+
+    # ---- (T)(B)(S) DiagonalCoulombHamiltonian: one_body of every float / complex type, band entries
+    for rep in range(2 * reps):
+        for kind in ['complex128', 'complex64', 'float64', 'float32', 'fortran-complex128', 'fortran-float64', 'int64']:
+            n = rng.randint(2, 4)
+            real = 'complex' not in kind
+            one, _ = herm_tensors(rng, n, not real, 1.0, kind == 'int64')
+            two = numpy.zeros((n, n))
+            for p in range(n):
+                for q in range(p, n):
+                    two[p, q] = two[q, p] = rng.randint(-4, 4) / 2
+            if rep % 2 == 1 and kind in ('complex128', 'float64'):
+                # a small hopping and a small interaction next to O(1) ones
+                v = band_val(rng, not real)
+                one[0, n - 1] = v
+                one[n - 1, 0] = numpy.conj(v)
+                two[0, 1] = two[1, 0] = band_val(rng, False)
+            const = rng.choice([0.0, 0.75, -1.0])
+            o_in = cast(one, kind)
+            t_in = numpy.asfortranarray(two) if kind.startswith('fortran') else two.copy()
+            ok, dch = soft(st, 'DiagonalCoulombHamiltonian:' + kind,
+                           lambda: of.DiagonalCoulombHamiltonian(o_in.copy(), t_in.copy(), const))
+            if not ok:
+                continue
+            j1, j2, jc = flat(dch.one_body), flat(dch.two_body), to_gq(dch.constant)
+            s1, s2 = dch.one_body.copy(), dch.two_body.copy()
+            case = {'fn': 'jordan_wigner', 'diagonal_coulomb': {'n': n, 'constant': jc, 'one': j1, 'two': j2},
+                    'array_type': kind}
+            st.case(case)
+            ok, Q = soft(st, 'jw(DiagonalCoulombHamiltonian):' + kind, lambda: jw(dch))
+            if not ok:
+                continue
+            st.count('type-accepted:DiagonalCoulombHamiltonian:' + kind)
+            jQ = enc_op('qubit', Q.terms)
+            b.add('jordan_wigner(DiagonalCoulombHamiltonian[%s])' % kind, case, jQ,
+                  {'op': 'c04.dch', 'n': n, 'constant': jc, 'one': j1, 'two': j2},
+                  oracle('fermion', n, ['dch', n, to_gq(const), flat(o_in), flat(t_in)], jQ))
+            if not (arrays_equal(dch.one_body, s1) and arrays_equal(dch.two_body, s2)):
+                st.violate('jordan_wigner modified the arrays of its DiagonalCoulombHamiltonian argument', case, {})
+            twice(st, 'jordan_wigner(DiagonalCoulombHamiltonian)', case, lambda: jw(dch),
+                  lambda Q: enc_op('qubit', Q.terms), mutate_operator)
+            ok, QF = soft(st, 'jw(get_fermion_operator(dch)):' + kind, lambda: jw(of.transforms.get_fermion_operator(dch)))
+            if ok and canon_nz(jQ) != canon_nz(enc_op('qubit', QF.terms)):
+                st.violate('DiagonalCoulombHamiltonian path differs from the FermionOperator path', case, {})
+    b.flush()
+
+    # ---- (B) small entries next to O(1) ones: InteractionOperator and FermionOperator; sizes 9..20; indices >= 257
+    for rep in range(len(FORCED_BAND) * reps):
+        forced = FORCED_BAND[rep % len(FORCED_BAND)]
+        n = rng.choice([4, 4, 5, 6] + ([9] if rep % 7 == 3 else []))
+        cplx = rng.random() < 0.6
+        one, two = band_tensors(rng, n, cplx, forced, st)
+        iop = of.InteractionOperator(rng.choice([0.0, 1.5]), one, two)
+        j1, j2, jc = flat(one), flat(two), to_gq(iop.constant)
+        case = {'fn': 'jordan_wigner', 'interaction_operator_sparse': {'n': n, 'terms': sparse_spec_op(iop.constant, one, two)},
+                'check': 'band 2e-6..9e-5 next to O(1)'}
+        st.case(case)
+        ok, Q = call(st, 'jordan_wigner(InteractionOperator with small entries)', case, lambda: jw(iop))
+        if ok:
+            jQ = enc_op('qubit', Q.terms)
+            b.add('jordan_wigner(InteractionOperator with small entries)', case, jQ,
+                  {'op': 'c04.iop', 'n': n, 'constant': jc, 'one': j1, 'two': j2},
+                  oracle('fermion', n, ['op', sparse_spec_op(iop.constant, one, two)], jQ))
+            ok, QF = call(st, 'jw(get_fermion_operator(iop))', case, lambda: jw(of.transforms.get_fermion_operator(iop)))
+            if ok and canon_nz(jQ) != canon_nz(enc_op('qubit', QF.terms)):
+                st.violate('InteractionOperator path differs from the FermionOperator path (small entries)', case, {})
+        A = of.FermionOperator()
+        nm = rng.randint(2, 6)
+        for _ in range(3):
+            t = tuple((rng.randrange(nm), rng.randint(0, 1)) for _ in range(rng.randint(1, 3)))
+            A += of.FermionOperator(t, band_val(rng, True) if rng.random() < 0.6 else rand_coeff(rng))
+        jA = enc_op('fermion', A.terms)
+        case = {'fn': 'jordan_wigner', 'fermion': jA, 'check': 'band'}
+        st.case(case)
+        ok, Q = call(st, 'jordan_wigner(FermionOperator with small coefficients)', case, lambda: jw(A))
+        if ok:
+            jQ = enc_op('qubit', Q.terms)
+            b.add('jordan_wigner(FermionOperator with small coefficients)', case, jQ, {'op': 'c04.fermion', 'A': jA},
+                  oracle('fermion', max(modes_of(jA), 1), ['op', jA], jQ))
+    for rep in range(reps):
+        modes = sorted(rng.sample(range(9, 21), 3)) + [0]
+        A = of.FermionOperator()
+        for _ in range(2):
+            t = tuple((rng.choice(modes), rng.randint(0, 1)) for _ in range(rng.randint(1, 3)))
+            A += of.FermionOperator(t, rand_coeff(rng))
+        jA = enc_op('fermion', A.terms)
+        case = {'fn': 'jordan_wigner', 'fermion': jA, 'check': 'sizes 9..20'}
+        st.case(case)
+        st.count('size:9..20')
+        ok, Q = call(st, 'jordan_wigner(FermionOperator on 9..20 modes)', case, lambda: jw(A))
+        if ok:
+            b.add('jordan_wigner(FermionOperator on 9..20 modes)', case, enc_op('qubit', Q.terms),
+                  {'op': 'c04.fermion', 'A': jA})
+        for (p, q, r, s) in [(257, 1, 300, 258), (258, 257, 257, 0), (300, 257, 300, 257)]:
+            c = rand_coeff(rng, 'complex')
+            case = {'fn': 'jordan_wigner_two_body', 'pqrs': [p, q, r, s], 'c': to_gq(c), 'check': 'indices >= 257'}
+            st.case(case)
+            st.count('index>=257')
+            ok, Q = call(st, 'jordan_wigner_two_body(indices >= 257)', case, lambda: jwmod.jordan_wigner_two_body(p, q, r, s, c))
+            if ok:
+                b.add('jordan_wigner_two_body(indices >= 257)', case, enc_op('qubit', Q.terms),
+                      {'op': 'c04.two_body', 'p': p, 'q': q, 'r': r, 's': s, 'c': to_gq(c)})
+        Al = of.FermionOperator(((257, 1), (300, 0)), 0.5 - 1j)
+        jA = enc_op('fermion', Al.terms)
+        case = {'fn': 'jordan_wigner', 'fermion': jA, 'check': 'indices >= 257'}
+        st.case(case)
+        ok, Q = call(st, 'jordan_wigner(indices >= 257)', case, lambda: jw(Al))
+        if ok:
+            b.add('jordan_wigner(indices >= 257)', case, enc_op('qubit', Q.terms), {'op': 'c04.fermion', 'A': jA})
+    b.flush()
+    return st
+
+
+def run(ctx):
+    return [stream_fermion(ctx), stream_helpers(ctx), stream_tensors(ctx), stream_reverse(ctx),
+            stream_jellium(ctx), stream_hardening(ctx)]
